@@ -24,21 +24,21 @@ type cuckooHandle interface {
 
 type cuckooMem struct{ f *gostatix.CuckooFilter }
 
-func (h cuckooMem) Insert(d []byte, ds bool) bool     { return h.f.Insert(d, ds) }
-func (h cuckooMem) Lookup(d []byte) (bool, error)     { return h.f.Lookup(d), nil }
-func (h cuckooMem) Remove(d []byte) (bool, error)     { return h.f.Remove(d), nil }
-func (h cuckooMem) Length() uint64                    { return h.f.Length() }
-func (h cuckooMem) Export() ([]byte, error)           { return h.f.Export() }
-func (h cuckooMem) tag() string                       { return "cuckoo.mem" }
+func (h cuckooMem) Insert(d []byte, ds bool) bool { return h.f.Insert(d, ds) }
+func (h cuckooMem) Lookup(d []byte) (bool, error) { return h.f.Lookup(d), nil }
+func (h cuckooMem) Remove(d []byte) (bool, error) { return h.f.Remove(d), nil }
+func (h cuckooMem) Length() uint64                { return h.f.Length() }
+func (h cuckooMem) Export() ([]byte, error)       { return h.f.Export() }
+func (h cuckooMem) tag() string                   { return "cuckoo.mem" }
 
 type cuckooRedis struct{ f *gostatix.CuckooFilterRedis }
 
-func (h cuckooRedis) Insert(d []byte, ds bool) bool   { return h.f.Insert(d, ds) }
-func (h cuckooRedis) Lookup(d []byte) (bool, error)   { return h.f.Lookup(d) }
-func (h cuckooRedis) Remove(d []byte) (bool, error)   { return h.f.Remove(d) }
-func (h cuckooRedis) Length() uint64                  { return h.f.Length() }
-func (h cuckooRedis) Export() ([]byte, error)         { return h.f.Export() }
-func (h cuckooRedis) tag() string                     { return "cuckoo.redis" }
+func (h cuckooRedis) Insert(d []byte, ds bool) bool { return h.f.Insert(d, ds) }
+func (h cuckooRedis) Lookup(d []byte) (bool, error) { return h.f.Lookup(d) }
+func (h cuckooRedis) Remove(d []byte) (bool, error) { return h.f.Remove(d) }
+func (h cuckooRedis) Length() uint64                { return h.f.Length() }
+func (h cuckooRedis) Export() ([]byte, error)       { return h.f.Export() }
+func (h cuckooRedis) tag() string                   { return "cuckoo.redis" }
 
 type cuckooCfg struct {
 	n, b, fpl, retries uint64
@@ -281,6 +281,12 @@ func cuckooCase(c *Ctx, cfg cuckooCfg) {
 				}
 			} else {
 				kicked = kicked || changed > 0
+				// a refusal is only legitimate when both candidate buckets were full beforehand
+				if _, i1, i2, okp := cuckooPos(e, n, fpl); okp && (pre.doc.B[i1].L < b || pre.doc.B[i2].L < b) {
+					c.fail([]string{"C14", "C02", "C09"}, "cuckoo-insert-refused-with-room",
+						fmt.Sprintf("%s: Insert signalled 'filter is full' although a candidate bucket of the element had room (bucket %d holds %d, bucket %d holds %d, capacity %d; %d handle(s) in use)", cfg, i1, pre.doc.B[i1].L, i2, pre.doc.B[i2].L, b, len(handles)), replayOf())
+					return
+				}
 				// C14
 				if !destructive {
 					c.branch("insert-full-rollback")
@@ -407,7 +413,7 @@ func cuckooCase(c *Ctx, cfg cuckooCfg) {
 		for jj := range pool {
 			if live[jj] > 0 {
 				if ok, _ := pick().Lookup(pool[jj]); !ok {
-					c.fail([]string{"C02", "C08", "C09"}, key("cuckoo-false-negative"),
+					c.fail([]string{"C02", "C08"}, key("cuckoo-false-negative"),
 						fmt.Sprintf("%s: element %d inserted %d more times than removed is reported absent after op %d", cfg, jj, live[jj], opn),
 						map[string]interface{}{"config": cfg.String(), "pool": poolHex(pool), "history": hist, "element": jj})
 					return
